@@ -114,7 +114,7 @@ inline Outcome runTridiagCase(const KV& c)
             return o;
         }
     }
-    else if (n > 4000 && cls == "dom") {
+    else if (n > 4000 && cls.rfind("dom", 0) == 0 && cls.find("scaled") == std::string::npos) {
         // strictly diagonally dominant: ||A^-1||_inf <= 1 / min_i (|a_ii| - sum_j |a_ij|)  (Varah), O(n) and rigorous;
         // an upper bound on kappa only widens the forward bound below, which mutants miss by many orders anyway
         LD gap = 1e300L;
@@ -437,6 +437,20 @@ inline KV genTridiagCase()
             sub[i] *= s[i] * s[i + 1];
         corner *= s[0] * s[n - 1];
     }
+    // cyclic systems in other units (all entries times 2^k, |k| up to 60): still SPD, and nothing in the property
+    // ties "every SPD system" to entries of order one. (Open systems are left alone: their solve asserts an
+    // absolute pivot floor, a documented precondition.)
+    int gscale_exp = 0;
+    if (cyclic && rint(0, 4) == 0) {
+        gscale_exp = rpick({-60, -50, -45, -40, -30, 30, 45, 60});
+        for (auto& v : mainD)
+            v = std::ldexp(v, gscale_exp);
+        for (auto& v : sub)
+            v = std::ldexp(v, gscale_exp);
+        corner = std::ldexp(corner, gscale_exp);
+        cls += gscale_exp < 0 ? "tiny" : "huge";
+    }
+    c.putI("gscale_exp", gscale_exp);
     c.putI("n", n);
     c.putI("threads", threads);
     c.putI("cyclic", cyclic);
